@@ -50,6 +50,9 @@ type Case struct {
 	// entry "application/json" whose schema nothing satisfies, so a wrong selection is visible
 	DeclCT string `json:"decl_ct,omitempty"`
 	AltCT  bool   `json:"alt_ct,omitempty"`
+	// CTHeader: the response definitions also declare a header named Content-Type (which the specification
+	// says is ignored), with a schema no value satisfies
+	CTHeader bool `json:"ct_header,omitempty"`
 	// PdfCT: the content also declares application/pdf without a schema (a body of that type is not checked)
 	PdfCT   bool `json:"pdf_ct,omitempty"`
 	Opts    int  `json:"opts"`               // 1 IncludeResponseStatus, 2 ExcludeResponseBody, 4 ExcludeWriteOnlyValidations, 8 MultiError
@@ -128,6 +131,9 @@ func check(c Case) (o h.Outcome) {
 			case "false":
 				hs[hname].(M)["explode"] = false
 			}
+		}
+		if c.CTHeader {
+			hs["Content-Type"] = M{"required": true, "schema": M{"type": "string", "enum": []any{"no-such-media-type"}}}
 		}
 		r := M{"description": "d", "headers": hs}
 		if schema != nil {
@@ -562,6 +568,7 @@ func gen(t *rapid.T) Case {
 		}
 	}
 	c.Opts = rapid.IntRange(0, 15).Draw(t, "opts")
+	c.CTHeader = rapid.IntRange(0, 3).Draw(t, "ctheader") == 0
 	if rapid.IntRange(0, 3).Draw(t, "prelude") == 0 {
 		c.PreOpts = rapid.IntRange(1, 15).Draw(t, "preopts")
 	}
